@@ -593,7 +593,6 @@ func (p *Func) inlineClosureEnd(cb *CodeBuilder) {
 	sig := p.Type().(*types.Signature)
 	fnBody, _ := cb.endFuncBody(p.old)
 	cb.emitStmt(&target.BlockStmt{List: fnBody})
-	cb.stk.PopN(p.getInlineCallArity())
 	results := sig.Results()
 	for i, n := 0, results.Len(); i < n; i++ { // return results & clean env
 		key := closureParamInst{p, results.At(i)}
@@ -639,6 +638,8 @@ func (p *CodeBuilder) CallInlineClosureStart(sig *types.Signature, arity int, el
 		stmts := p.current.stmts
 		stmts[i], stmts[j] = stmts[j], stmts[i]
 	}
+	// The arguments are consumed: the expressions of the body start on an empty stack.
+	p.current.base = p.stk.Len()
 	return p
 }
 
